@@ -1119,6 +1119,10 @@ def canonical_func(fi):
                 xs_names = names_in(xs)
                 rebinds = any(isinstance(x, ast.Name) and isinstance(x.ctx, ast.Store) and x.id in (xs_names | {i}) for st in n.body for x in ast.walk(st))
                 direct_store = any(isinstance(x.ctx, (ast.Store, ast.Del)) for x in subs)
+                # the sequence must keep its length while it is walked (range(len(..)) is computed once, an iterator is not)
+                direct_store = direct_store or any(
+                    isinstance(x, ast.Call) and isinstance(x.func, ast.Attribute) and x.func.attr in ('append', 'extend', 'insert', 'pop', 'remove', 'clear', 'sort', 'reverse')
+                    and ast.dump(x.func.value) == key for st in n.body for x in ast.walk(st))
                 if subs and n_i == len(subs) and uses_in_function(i) == n_i + 1 and not rebinds and not direct_store:
                     elem = '%s__elem' % (xs.id if isinstance(xs, ast.Name) else xs.attr)
                     if uses_in_function(elem) == 0:
